@@ -376,11 +376,25 @@ func (c *client) sendExecutionResult(runID string, result ExecutionResult) {
 }
 
 func (c *client) sendErrorToAll(err error) {
+	c.sendErrorToAllEntries(err, false)
+}
+
+// sendErrorToAllAndStop reports a fatal error to every waiting step and marks the read loop as stopped in
+// the same critical section, so that a step registering afterwards starts a new read loop instead of
+// waiting for this one.
+func (c *client) sendErrorToAllAndStop(err error) {
+	c.sendErrorToAllEntries(err, true)
+}
+
+func (c *client) sendErrorToAllEntries(err error, stopReadLoop bool) {
 	result := NewErrorExecutionResult(err)
 	vh("c.deliverAll.pre")
 	c.mutex.Lock()
 	for runID := range c.runningStepResultEntries {
 		c.sendExecutionResult(runID, result)
+	}
+	if stopReadLoop {
+		c.readLoopRunning = false
 	}
 	vh("c.deliverAll", "n", len(c.runningStepResultEntries))
 	c.mutex.Unlock()
@@ -438,7 +452,7 @@ func (c *client) handleErrorMessage(runtimeMessage DecodedRuntimeMessage) bool {
 	resultMsg := fmt.Errorf("step with run ID %q sent error message: %s", runtimeMessage.RunID, errorMessageStr)
 	c.logger.Errorf(resultMsg.Error())
 	if errMessage.ServerFatal {
-		c.sendErrorToAll(resultMsg)
+		c.sendErrorToAllAndStop(resultMsg)
 		return true // It's server fatal, so this is the last message from the server.
 	} else if errMessage.StepFatal {
 		if runtimeMessage.RunID == "" {
@@ -453,7 +467,11 @@ func (c *client) handleErrorMessage(runtimeMessage DecodedRuntimeMessage) bool {
 	return false
 }
 
-func (c *client) hasEntriesRemaining() bool {
+// stopReadLoopIfDone checks whether any step is still waiting for its result and, if none is, marks the
+// read loop as stopped. Both happen in one critical section: an Execute call that registers its entry
+// concurrently is either seen here, so the loop keeps running, or it sees the loop as stopped and
+// starts a new one. Returns true if the loop must exit.
+func (c *client) stopReadLoopIfDone() bool {
 	vh("c.check.pre")
 	c.mutex.Lock()
 	defer c.mutex.Unlock()
@@ -463,22 +481,18 @@ func (c *client) hasEntriesRemaining() bool {
 		// following completion. It is set to a non-nil value when done.
 		if resultEntry.result == nil {
 			vh("c.check", "remaining", true)
-			return true
+			return false
 		}
 	}
+	c.readLoopRunning = false
 	vh("c.check", "remaining", false)
-	return false
+	return true
 }
 
 func (c *client) executeReadLoop(cborReader *cbor.Decoder) {
-	defer func() {
-		vh("c.loopExit.pre")
-		c.mutex.Lock()
-		defer c.mutex.Unlock()
-		c.readLoopRunning = false
-		vh("c.loopExit")
-		c.wg.Done()
-	}()
+	// readLoopRunning is cleared by whichever step decides that the loop ends (stopReadLoopIfDone,
+	// sendErrorToAllAndStop), in the same critical section as that decision.
+	defer c.wg.Done()
 	// Loop and get all messages
 	// The message is generic, so we must find the type and decode the full message next.
 	var runtimeMessage DecodedRuntimeMessage
@@ -492,7 +506,7 @@ func (c *client) executeReadLoop(cborReader *cbor.Decoder) {
 				err,
 			)
 			// This is fatal since the entire structure of the runtime message is invalid.
-			c.sendErrorToAll(fmt.Errorf("failed to read or decode runtime message (%w)", err))
+			c.sendErrorToAllAndStop(fmt.Errorf("failed to read or decode runtime message (%w)", err))
 			return
 		}
 		vh("c.decode", "id", runtimeMessage.MessageID, "run", runtimeMessage.RunID)
@@ -514,7 +528,7 @@ func (c *client) executeReadLoop(cborReader *cbor.Decoder) {
 			)
 		}
 		// The non-error exit condition is having no more entries remaining.
-		if !c.hasEntriesRemaining() {
+		if c.stopReadLoopIfDone() {
 			return
 		}
 	}
